@@ -9,6 +9,8 @@ import (
 	"os/exec"
 	"path/filepath"
 	"runtime"
+	"runtime/debug"
+	"runtime/pprof"
 	"sort"
 	"strconv"
 	"strings"
@@ -126,10 +128,18 @@ func main() {
 	flag.StringVar(&cfg.Only, "only", "", "run only harnesses whose name contains this")
 	flag.StringVar(&cfg.AssertMode, "assertmode", "now", "now | batch")
 	flag.StringVar(&cfg.CrossCheck, "crosscheck", "", "each | sample | off: second solver (z3) on every / every 8th / no property query proved by cvc5 (default: sample for quick, each for thorough)")
+	flag.IntVar(&cfg.AuditEvery, "audit", 16, "confirm every n-th rewriting-decided answer with cvc5 (0 = never)")
+	flag.BoolVar(&cfg.NoFast, "nofast", false, "disable verified-model feasibility shortcuts (every feasibility question goes to the solver)")
 	replayPath := flag.String("replay", "", "replay a recorded counterexample natively")
 	noSelf := flag.Bool("noselftest", false, "skip the concrete differential self-test")
 	budget := flag.Duration("budget", 0, "wall-clock budget for exploration (0 = none)")
+	cpuprof := flag.String("cpuprofile", "", "write a CPU profile")
 	flag.Parse()
+	if *cpuprof != "" {
+		f, _ := os.Create(*cpuprof)
+		pprof.StartCPUProfile(f)
+		defer pprof.StopCPUProfile()
+	}
 	if s := os.Getenv("VERIF_SEED"); s != "" {
 		cfg.Seed, _ = strconv.ParseInt(s, 10, 64)
 	}
@@ -158,6 +168,7 @@ func main() {
 	if *budget > 0 {
 		cfg.Deadline = time.Now().Add(*budget)
 	}
+	debug.SetGCPercent(600)
 	root := verifRoot()
 	t0 := time.Now()
 	ld := load(root)
@@ -202,6 +213,7 @@ func main() {
 	rep.wall = time.Since(t0)
 	code := rep.finish()
 	nb.cleanup()
+	pprof.StopCPUProfile()
 	os.Exit(code)
 }
 
